@@ -367,6 +367,20 @@ def short_callee(path, c=None):
     return segs2[-1]
 
 
+NAMES = {}
+
+
+def expr_named(q, op, names):
+    """expr_of with some locals replaced by symbolic names ({local: name})"""
+    global NAMES
+    old = NAMES
+    NAMES = names
+    try:
+        return expr_of(q, op)
+    finally:
+        NAMES = old
+
+
 def expr_of(q, op, depth=0, seen=None):
     """Symbolic expression of an operand in terms of the function's parameters (p1, p2, ..), constants and calls.
     Transparent conversions (deref, clone, into, as_str, to_owned ..) are skipped."""
@@ -388,6 +402,8 @@ def expr_of(q, op, depth=0, seen=None):
 def place_expr(q, p, depth=0, seen=None):
     seen = seen or set()
     l = p["l"]
+    if l in NAMES and "p" not in p:
+        return NAMES[l]
     projs = [e for e in p.get("p", []) if e != "deref"]
     sfx = ""
     for e in projs:
@@ -401,6 +417,8 @@ def place_expr(q, p, depth=0, seen=None):
             sfx += "[%s]" % place_expr(q, {"l": e["idx"]}, depth + 1, seen)
         elif "cidx" in e:
             sfx += "[%s%d]" % ("-" if e.get("from_end") else "", e["cidx"])
+    if l in NAMES:
+        return NAMES[l] + sfx
     if 1 <= l <= q.b.d["arg_count"]:
         return "p%d%s" % (l, sfx)
     if l in seen:
